@@ -94,8 +94,8 @@ def main(run: core.Run) -> None:
                            'depth2': '1-line docs, in-range arguments'})
     else:
         items = docexp.corpus(docs.L_EDIT, 3, depth=1, modes=(True, False))
-        d2 = docexp.corpus(docs.L_EDIT, 2, depth=2)
-        run.bounds.update({'depth1': 'all docs <= 3 lines, both attribution modes', 'depth2': 'docs <= 2 lines'})
+        d2 = docexp.corpus(docs.L_EDIT, 1, depth=2) + docexp.corpus(docs.L_EDIT, 2, nmin=2, depth=2, level='basic')
+        run.bounds.update({'depth1': 'all docs <= 3 lines, both attribution modes', 'depth2': '1-line docs with the full argument menu, 2-line docs with in-range arguments'})
     items += docexp.class_cases(1, level=('basic' if tier == 'quick' else 'full'))
     run.bounds['class_corpus'] = 'one minimal and one full document per directive class (38 documents), depth 1'
     docexp.bfs(run, ORACLE, items, 'depth-1 corpus')
